@@ -35,9 +35,12 @@ SameLangs(r, s) == r.langs = s.langs
 Det(r, s) == (IsRun(r) /\ IsRun(s) /\ r.inputs = s.inputs /\ SameCfg(r, s) /\ SameLangs(r, s))
                 => (r.err = s.err /\ r.files = s.files /\ r.ir = s.ir)
 
+(* the files of a configured language; a language that produced nothing under its own directory has "none" *)
+FilesOf(r, L) == IF L \in DOMAIN r.files THEN r.files[L] ELSE "none"
+
 (* C07 LanguageIndependent: equal inputs and configuration, different language sets => every common language has equal files *)
 LangIndep(r, s) == (IsRun(r) /\ IsRun(s) /\ r.inputs = s.inputs /\ SameCfg(r, s) /\ ~SameLangs(r, s))
-                      => (r.err = s.err /\ \A L \in DOMAIN r.files \cap DOMAIN s.files : r.files[L] = s.files[L])
+                      => (r.err = s.err /\ (~r.err => \A L \in Range(r.langs) \cap Range(s.langs) : FilesOf(r, L) = FilesOf(s, L)))
 
 (* C07 InputOrderIndependent: the inputs are a permutation of each other and define different packages => no file changes *)
 InputOrder(r, s) == (IsRun(r) /\ IsRun(s) /\ SameCfg(r, s) /\ SameLangs(r, s) /\ IsPerm(r.inputs, s.inputs) /\ DistinctPkgs(r.inputs))
@@ -49,7 +52,7 @@ ExtraOf(r, s) == {k \in DOMAIN s.inputs : Len(s.inputs) = Len(r.inputs) + 1 /\ W
                                             /\ PkgOf(s.inputs[k]) \notin PkgsOfSeq(r.inputs)}
 UnrelatedOne(r, s) == (IsRun(r) /\ IsRun(s) /\ SameCfg(r, s) /\ SameLangs(r, s) /\ ExtraOf(r, s) # {})
                         => (r.err = s.err /\ (~r.err => \A L \in DOMAIN r.pkgfiles : \A P \in DOMAIN r.pkgfiles[L] :
-                                                 P \in DOMAIN s.pkgfiles[L] /\ s.pkgfiles[L][P] = r.pkgfiles[L][P]))
+                                                 L \in DOMAIN s.pkgfiles /\ P \in DOMAIN s.pkgfiles[L] /\ s.pkgfiles[L][P] = r.pkgfiles[L][P]))
 Unrelated(r, s) == UnrelatedOne(r, s) /\ UnrelatedOne(s, r)
 
 PairViolated(r, s) == (IF Det(r, s) THEN {} ELSE {"Deterministic"})
